@@ -16,7 +16,8 @@ Namings == {"plain", "kw_swift", "kw_py", "kw_both", "kw_type", "kw_dashed", "ke
 TypeFeatures == {"prim", "option", "vec_option", "map", "user", "generic", "override_lang", "serialized_as", "unit", "array", "nested", "boxed_self", "i64", "default_attr"}
 Decos == {"none", "swift_deco", "swift_decos2", "kotlin_deco", "redacted", "constraints", "item_serialized_as", "readonly"}
 Docs == {"none", "all", "multiline"}
-Cfgs == {"default", "prefix", "packages", "swift_defaults", "header"}
+\* folder: folder-output mode with a second crate whose type is imported (import lines are part of the file)
+Cfgs == {"default", "prefix", "packages", "swift_defaults", "header", "folder", "folder_prefix"}
 
 HasMembers(k) == k \in {"struct", "generic_struct", "unit_enum", "enum_newtype", "enum_struct", "enum_mixed", "generic_enum", "enum_tag_dashed", "enum_tag_kw"}
 IsEnum(k) == k \in {"unit_enum", "enum_newtype", "enum_struct", "enum_mixed", "generic_enum", "enum_tag_dashed", "enum_tag_kw"}
@@ -58,9 +59,11 @@ Scope == CASE c.naming \in {"kw_swift", "kw_py", "kw_both", "kw_dashed", "kebab_
            [] OTHER -> AllLangs
 \* constants are supported by TypeScript, Go and Python only; the others must refuse (judged by C03/C07)
 ConstLangs == {"typescript", "go", "python"}
-Langs == IF c.kind = "const" THEN Scope \cap ConstLangs
-         ELSE IF c.kind = "enum_tag_kw" THEN Scope \cap {"swift", "python"}
-         ELSE Scope
+FolderLangs == AllLangs \ {"go"}                 \* Go has no folder mode
+Langs0 == IF c.cfg \in {"folder", "folder_prefix"} THEN Scope \cap FolderLangs ELSE Scope
+Langs == IF c.kind = "const" THEN Langs0 \cap ConstLangs
+         ELSE IF c.kind = "enum_tag_kw" THEN Langs0 \cap {"swift", "python"}
+         ELSE Langs0
 
 Emit == PrintT(<<"REPLAY", ToJson([case |-> c, langs |-> Langs])>>)
 =============================================================================
